@@ -165,9 +165,11 @@ func symbolsOf(s string) []string {
 // query builds the SMT-LIB text for one obligation (cone of influence only).
 func (vc *VC) query(o *Obligation, produceModels bool) string {
 	need := map[string]bool{}
+	seenSym := map[string]bool{}
 	var work []string
 	add := func(text string) {
 		for _, s := range symbolsOf(text) {
+			seenSym[s] = true
 			if _, ok := vc.defs[s]; ok && !need[s] {
 				need[s] = true
 				work = append(work, s)
@@ -213,7 +215,7 @@ func (vc *VC) query(o *Obligation, produceModels bool) string {
 			}
 			hit := len(a.keys) == 0
 			for _, k := range a.keys {
-				if need[k] {
+				if need[k] || seenSym[k] {
 					hit = true
 					break
 				}
